@@ -727,6 +727,65 @@ def main(ck: Check):
         if not yaml_eq(yaml.safe_load("---\n" + dumped + "\n"), meta):
             ck.broken.append({"kind": "hypothesis", "point": "yaml.safe_load('---\\n'+safe_dump(m)+'\\n') == m", "meta": meta})
 
+    # (4b) the plan writers of the API (simaple/api/base.py): a plan with a provider header is re-rendered with its
+    #      environment; the re-rendered text must parse back to the SAME commands, whatever the body contains (`---` in a
+    #      comment, a debug text or a skill name; `#` in strings) -- and (4c) a parse does not depend on the texts parsed before
+    try:
+        from simaple.api.base import provide_environment_augmented_plan
+        prov = {"name": "MinimalEnvironmentProvider",
+                "data": {"level": 270, "action_stat": {}, "stat": {"INT": 40000.0, "magic_attack": 3000.0},
+                         "jobtype": "archmagetc", "weapon_pure_attack_power": 0, "combat_orders_level": 1}}
+        header = yaml.safe_dump({"author": "verif", "provider": prov}, indent=2, allow_unicode=True)
+        bodies = ['CAST "체인 라이트닝 VI"\n# --- burst ---\nELAPSE 300.0\nCAST "프로즌 오브"',
+                  'ELAPSE 10.0 # ---\nUSE "체인 라이트닝 VI"\nRESOLVE "체인 라이트닝 VI"',
+                  'CAST "a---b"\nELAPSE 5.0',
+                  '!debug "\'--- clock ---\'"\nELAPSE 1.0\nx2 ELAPSE 2.5',
+                  'ELAPSE 1.0\n#---\n#--- ---\nELAPSE 2.0']
+        for _ in range(3 if quick else 20):
+            lines = [canonical_line(l) for l in rand_cmd_list(rng, allow_mult=True)]
+            if lines:
+                k = rng.randrange(len(lines))
+                lines[k] = lines[k] + rng.choice(["  # ---", " #--- x ---", ""])
+                bodies.append("\n".join(lines))
+        prop["api_rerendered_plans"] = 0
+        for body in bodies:
+            text = f"---\n{header}\n---\n{body}"
+            try:
+                _m0, c0 = parse_simaple_runtime(text)
+            except Exception:  # noqa: BLE001  (a body the grammar rejects is not this test's business)
+                continue
+            prop["api_rerendered_plans"] += 1
+            try:
+                aug = provide_environment_augmented_plan(text)
+                _m1, c1 = parse_simaple_runtime(aug)
+                ok, obs = c1 == c0, canon_real(c1)
+            except Exception as e:  # noqa: BLE001
+                ok, obs = False, f"{type(e).__name__}: {str(e)[:160]}"
+            if not ok:
+                ck.add_failing({"function": "provide_environment_augmented_plan", "kind": "rerendered-plan-changes-the-commands",
+                                "body": body, "observed": obs, "expected": canon_real(c0)})
+    except Exception as e:  # noqa: BLE001
+        ck.broken.append({"kind": "api-plan-writer", "error": f"{type(e).__name__}: {e}"[:300]})
+    prop["parse_after_failed_parse"] = 0
+    good = 'CAST "a"\nELAPSE 10.0\n!debug "x"\nx2 USE "b c" 1.5'
+    try:
+        want = canon_real(parse_dsl_to_command(good))
+        for bad in ['CAST "a"\nELAPSE 1e999', 'USE "k"\nx2.5 ELAPSE 10', '!debug "z"\nCAST "q"\nELAPSE -1e400', 'ELAPSE 1\nCAST']:
+            for f in (parse_dsl_to_command, dsl_parser.parse_dsl_to_operations, parse_simaple_runtime):
+                try:
+                    f(bad)
+                except Exception:  # noqa: BLE001
+                    pass
+                prop["parse_after_failed_parse"] += 1
+                got = canon_real(parse_dsl_to_command(good))
+                if got != want:
+                    ck.add_failing({"function": "parse_dsl_to_command", "kind": "parse-depends-on-an-earlier-failed-parse",
+                                    "failed_text": bad, "then": good, "observed": got, "expected": want})
+                    want = got
+    except Exception as e:  # noqa: BLE001
+        ck.add_failing({"function": "parse_dsl_to_command", "kind": "parse-after-failed-parse-raises",
+                        "error": f"{type(e).__name__}: {str(e)[:200]}"})
+
     # (5) executing the re-parsed plan gives the same result (real engine)
     try:
         engine_result = engine_check(ck, rng, n_engine, prop)
